@@ -14,7 +14,22 @@ Monitors (all on executions of the real Membrane / InnateImmunity):
     refused before);
   * audit trail: get_audit_log() grows by exactly one entry per filter() and that entry is the returned result;
   * metamorphic relations on real calls: blocked(x) => blocked(case_perturb(x)) and blocked(pre+sep+x+sep+post);
-  * totality: every call under `except BaseException`, hostile inputs swept over eight gate configurations;
+  * totality: every call under `except BaseException`, hostile inputs swept over ten gate configurations (two with console output on);
+  * long histories on one gate (round 3): > 20 000 operations per session - replay memory (early blocked inputs come back after tens of
+    thousands of other blocked inputs and a relaxation of the rules; one session above a million in the thorough tier), the audit trail
+    (one entry per decision, the first still in front), the rate window over a long bursty stream (tolerant 59 s / 61 s windows), rule
+    memory (tens of thousands of learned / imported / added signatures and innate patterns, the oldest still active), one innate gate
+    over tens of thousands of checks;
+  * several gates alive at once (2-3 membranes + 1-2 innate gates, configured differently, used alternately on one pool of inputs), each
+    judged against its own history only;
+  * degenerate options (rate_limit 0 / 1 / 2.0 / huge, set in the constructor or later through the public attribute; thresholds off the
+    1-5 scale and fractional, severities 0 / negative / fractional / inf; validators with bounds 0, 1, min > max; empty, one-character and
+    match-everything patterns; odd descriptions), user callbacks (on_threat / on_inflammation) and user validators that record, raise
+    their own exception or call back into the reporting API - the exception may come out of filter()/check(), the decision it
+    interrupted is still owed its audit entry / replay memory and the gate keeps answering right; reporting / maintenance calls
+    (get_statistics, get_audit_log, export_antibodies, repr, clear_audit_log, stats, reset_inflammation, add_validator) between any two
+    decisions, their results modified by the caller; every field of the Signal envelope varied, the same Signal object reused;
+    time from milliseconds to many days, clock bases from 0 to 1e12;
   * rate limiter under rv.sched (3 threads x <= 4 filter() calls; every lock-like attribute of the gate and of the helper objects
     it holds is wrapped generically, whatever it is called): admissions <= rate_limit, no deadlock, one audit entry per call,
     for every explored schedule.
@@ -29,7 +44,7 @@ import contextlib
 import io
 import json
 import sys
-from collections import Counter
+from collections import Counter, deque
 
 from rv import c10_model as M
 from rv import core, sched
@@ -40,11 +55,14 @@ LEVEL = "exploration"
 TECHNIQUE = ("runtime monitoring: signature-gate reference model replaying the rule history against every real filter()/check() result, "
              "virtual-clock sliding-window and replay-memory log, audit-trail growth hook, case/embedding metamorphic relations on real calls, "
              "rule-change sessions re-filtering the byte-identical input on one long-lived gate, hostile-input totality sweep, and a line-level controlled thread scheduler on the rate limiter")
-RULE = ("cases = sweep of %d hostile input kinds x 8 gate configurations, then seeded: " % len(M.HOSTILE_KEYS) + "stateless membrane / innate inputs built from instances of "
+RULE = ("cases = sweep of %d hostile input kinds x 10 gate configurations, then seeded: " % len(M.HOSTILE_KEYS) + "stateless membrane / innate inputs built from instances of "
         "active, removed and inactive signatures (substring + regex, instances generated from the pattern) embedded in benign / hostile text, "
         "membrane histories of <= 12 steps over {filter, learn, forget, import, add, set_threshold, rotate, overwrite, advance clock}, directed block-relax-replay "
         "histories, rule-change sessions of 1-4 rounds on one gate (input passes -> count-preserving or plain rule change that makes an active "
-        "signature match it -> identical input again), and 3-thread rate-limiter workloads under pb(1)+random schedules; non-trivial = the input matches >= 1 active signature or "
+        "signature match it -> identical input again), sessions over 2-3 membranes + 1-2 innate gates used alternately, a handful of long sessions "
+        "(> 20 000 operations on one gate: replay memory / audit trail / rate window / rule memory / innate), one case in nine with console output on, "
+        "and 3-thread rate-limiter workloads under pb(1)+random schedules; options include the degenerate values (rate_limit 0, thresholds and "
+        "severities off the scale or fractional, validator bounds 0 / 1 / min > max, empty patterns), user callbacks and validators that raise; non-trivial = the input matches >= 1 active signature or "
         "trips a validator, a refusal path (rate / replay) is taken, or a schedule switches threads inside filter(); "
         "distinct = (gate, matched set, threshold, path taken)")
 ASSUMPTIONS = [
@@ -64,14 +82,24 @@ ASSUMPTIONS = [
     "'a shipped validator rejects' = the validator object's own verdict; in addition its documented contract is checked on unambiguous cases only "
     "(length bounds, NUL / C0 controls, JSON that does not parse, nesting >= max_depth + 2)",
     "hostile inputs are linear-time for the shipped regexes (no input with many unmatched '<|' / '[INST]' openers: performance, not this property)",
+    "rate_limit = 0 admits nothing; a rate_limit stored later through the public attribute bounds the admissions made after that moment; only "
+    "integral limits are generated (0, 1, 2.0, ..., 2**53+1)",
+    "an exception raised by the user's own on_threat / on_inflammation callback or by a user-written validator may come out of filter() / check() "
+    "(it does on the unchanged tree) and is not 'the gate raises'; the decision handed to on_threat is then judged like a returned one (audit entry, "
+    "replay memory, window slot), and the innate gate is asked the same input again and that answer is judged",
+    "with an innate threshold of 0 (or below every severity) only inputs that match a pattern are required to be blocked; severities / thresholds "
+    "are compared as numbers (fractions, inf), nan is never generated; user validators always give an error text with a rejection",
+    "the long rate stream is judged with tolerant windows: more than rate_limit admissions inside 59 s is a violation, a refusal without a signature "
+    "needs rate_limit requests through the gate within the last 61 s",
+    "clear_audit_log() is the user's reset of the trail: decisions made afterwards are appended to the emptied trail",
 ]
 
-GATES = ["membrane-default", "membrane-custom", "innate-default", "innate-json", "innate-json-big", "innate-all",
-         "innate-length-only", "innate-charset-controls-allowed"]
+GATES = ["membrane-default", "membrane-custom", "membrane-verbose", "innate-default", "innate-json", "innate-json-big", "innate-all",
+         "innate-length-only", "innate-charset-controls-allowed", "innate-verbose"]
 SWEEP = [(g, k) for g in GATES for k in M.HOSTILE_KEYS]
 THREAD_EVERY_QUICK = 241
 THREAD_EVERY_THOROUGH = 1201
-SILENT = [True]      # a few cases run the gates with silent=False (stdout captured) so the console branches are reached too
+SILENT = [True]      # one case in nine runs the gates with silent=False (stdout captured) so the console branches are reached too
 
 
 def plan(tier):
@@ -93,7 +121,15 @@ def plan(tier):
                         "membrane_rule_change:remove-add-signature": 80, "innate_rule_change:replace-pattern": 60,
                         "innate_rule_change:remove-add-pattern": 50,
                         "thread_schedules": 1000, "thread_schedules_with_switch_inside": 300, "thread_filter_results_judged": 3000, "thread_schedules_limit_reached": 500,
-                        "cases_that_printed": 20}}
+                        "cases_that_printed": 300,
+                        # round 3: long histories, several gates at once, degenerate options, user callbacks, reporting reads
+                        "long_sessions": 3, "long_session_operations": 30000, "membrane_long_replay_victims_checked": 3,
+                        "membrane_long_replay_bulk_rechecked": 100, "membrane_long_audit_checks": 4, "membrane_long_rate_refusals": 200,
+                        "long_rules_probes_checked": 8, "multi_instance_sessions": 150, "multi_instance_membrane_steps": 1500,
+                        "membrane_rate_limit_zero_decisions": 80, "membrane_on_threat_calls": 300,
+                        "membrane_on_threat_raised_through_filter": 80, "membrane_report_reads": 1500, "innate_report_reads": 500,
+                        "innate_user_exception_through_check": 40, "innate_validators_added_mid_session": 150,
+                        "innate_odd_threshold_checks": 300, "innate_user_validator_rejections": 40}}
 
 
 # ------------------------------------------------------------------ keys / construction
@@ -105,10 +141,16 @@ def pat_key(p):
     return (p.pattern, bool(p.is_regex), p.severity)
 
 
+DEGENERATE_SPECS = [("", False), (" ", False), ("a", False), ("E", False), (".", True), ("", True), (r"\s", True), ("42", False)]
+DESCRIPTIONS = ["custom", "", "d" * 3000, "{0} %s {x!r} \\", "описание \U0001f600", "line\nbreak\x00nul"]
+
+
 def gen_sigspec(rng, maxlevel, minlevel=1):
     """(pattern, is_regex, level)"""
     r = rng.random()
-    if r < 0.45:
+    if r < 0.015:                          # degenerate patterns: empty / one character / match-everything
+        pat, rx = rng.choice(DEGENERATE_SPECS)
+    elif r < 0.45:
         pat, rx = rng.choice(M.CUSTOM_SUB), False
     elif r < 0.85:
         pat, rx = rng.choice(M.CUSTOM_RX), True
@@ -117,8 +159,47 @@ def gen_sigspec(rng, maxlevel, minlevel=1):
     return (pat, rx, rng.randint(minlevel, maxlevel))
 
 
+def describe(rng):
+    """the optional description of a signature / pattern (never part of any verdict)"""
+    return rng.choice(DESCRIPTIONS) if rng.random() < 0.2 else "custom"
+
+
+class CallbackBoom(Exception):
+    """raised only by the user callbacks / user validators this workload supplies, never by the gates themselves"""
+
+
 class MEnv:
     pass
+
+
+def new_menv(m, mm, rng, desc, removed=()):
+    env = MEnv()
+    env.m, env.mm, env.rng, env.removed, env.inactive = m, mm, rng, list(removed), []
+    env.ops, env.cb_calls, env.signals = [], [], {}
+    env.desc = dict(desc, ops=env.ops)
+    env.last_path = None
+    return env
+
+
+def make_on_threat(holder, mode):
+    """the on_threat callback a user may supply: records, raises its own exception, or calls back into the gate's reporting API"""
+    if mode is None:
+        return None
+
+    def on_threat(result):
+        env = holder[0]
+        env.cb_calls.append(result)
+        k = len(env.cb_calls)
+        if mode == "raise" or (mode == "raise-some" and k % 2 == 1):
+            raise CallbackBoom("on_threat #%d" % k)
+        if mode == "reenter":
+            env.m.get_statistics()
+            env.m.get_audit_log().clear()
+            env.m.export_antibodies().clear()
+    return on_threat
+
+
+RATE_DEGENERATE = [0, 0, 0, 1, 2.0, 10 ** 9, 2 ** 53 + 1]
 
 
 def build_membrane(rng, rate_limit=None, desc=None):
@@ -139,15 +220,19 @@ def build_membrane(rng, rate_limit=None, desc=None):
     ncustom = rng.choice([0, 0, 1, 1, 2, 3, 4, 6])
     specs = [gen_sigspec(rng, 3, 0 if rng.random() < 0.05 else 1) for _ in range(ncustom)]
     routes = [rng.choice(["ctor", "add", "learn", "import"]) for _ in specs]
-    ctor = [ThreatSignature(p, ThreatLevel(l), "custom", rx) for (p, rx, l), rt in zip(specs, routes) if rt == "ctor"]
-    m = cls(signatures=ctor or None, threshold=ThreatLevel(threshold), enable_adaptive=adaptive, rate_limit=rate_limit, silent=SILENT[0])
+    ctor = [ThreatSignature(p, ThreatLevel(l), describe(rng), rx) for (p, rx, l), rt in zip(specs, routes) if rt == "ctor"]
+    cb_mode = rng.choice([None] * 12 + ["record", "record", "raise", "raise", "raise-some", "reenter", "reenter"])
+    holder = [None]
+    handed = list(ctor) if (ctor or rng.random() < 0.5) else None          # [] and None both mean "no extra signatures"
+    m = cls(signatures=handed, threshold=ThreatLevel(threshold), enable_adaptive=adaptive, rate_limit=rate_limit,
+            on_threat=make_on_threat(holder, cb_mode), silent=SILENT[0])
+    if handed:
+        handed.clear()                     # the caller's list is the caller's: emptying it afterwards is no rule change
     mm = M.MembraneModel([sig_key(s) for s in keep] + [sig_key(s) for s in ctor], threshold, adaptive, rate_limit)
-    env = MEnv()
-    env.m, env.mm, env.removed = m, mm, removed
-    env.ops = []
-    env.desc = {"gate": "membrane", "builtins_kept": "all" if keep is builtins else [s.pattern for s in keep], "threshold": threshold,
-                "adaptive": adaptive, "rate_limit": rate_limit, "ctor_signatures": [sig_key(s) for s in ctor], "ops": env.ops}
-    env.inactive = []
+    env = new_menv(m, mm, rng, {"gate": "membrane", "builtins_kept": "all" if keep is builtins else [s.pattern for s in keep],
+                                "threshold": threshold, "adaptive": adaptive, "rate_limit": rate_limit, "on_threat": cb_mode,
+                                "ctor_signatures": [sig_key(s) for s in ctor]}, removed)
+    holder[0] = env
     for spec, rt in zip(specs, routes):
         if rt != "ctor":
             apply_rule_op(env, rt, spec, rng)
@@ -157,20 +242,55 @@ def build_membrane(rng, rate_limit=None, desc=None):
 def apply_rule_op(env, kind, spec, rng=None):
     from operon_ai.organelles.membrane import Membrane, ThreatLevel, ThreatSignature
     m, mm = env.m, env.mm
+    rng = env.rng
     if kind == "add":
-        m.add_signature(ThreatSignature(spec[0], ThreatLevel(spec[2]), "added", spec[1]))
+        sig = ThreatSignature(spec[0], ThreatLevel(spec[2]), describe(rng), spec[1])
+        m.add_signature(sig)
         mm.add(spec)
+        if rng.random() < 0.08:            # the very same object registered a second time: two entries, both match
+            m.add_signature(sig)
+            mm.add(spec)
     elif kind == "learn":
-        m.learn_threat(spec[0], ThreatLevel(spec[2]), "learned", spec[1])
+        if rng.random() < 0.8:
+            m.learn_threat(spec[0], ThreatLevel(spec[2]), describe(rng), spec[1])
+        else:
+            m.learn_threat(pattern=spec[0], level=ThreatLevel(spec[2]), is_regex=spec[1])
         mm.learn(spec)
         if not mm.adaptive:
             env.inactive.append(spec)
     elif kind == "import":
+        # the antibodies come out of another gate (sometimes through a chain of two, sometimes next to other antibodies and an
+        # older version of the same pattern text); the list handed over is emptied afterwards and the donor forgets
         donor = Membrane(silent=True)
-        donor.learn_threat(spec[0], ThreatLevel(spec[2]), "donor", spec[1])
+        extra = [decoy_spec(rng, 3, spec[0])[:2] + (0,) for _ in range(rng.choice([0, 0, 0, 1, 2]))]     # level 0 bystanders
+        if rng.random() < 0.2:
+            donor.learn_threat(spec[0], ThreatLevel(rng.randint(0, 3)), "older version", spec[1])
+        for e in extra:
+            donor.learn_threat(e[0], ThreatLevel(e[2]), "bystander", e[1])
+        donor.learn_threat(spec[0], ThreatLevel(spec[2]), describe(rng), spec[1])
+        if rng.random() < 0.25:
+            relay = Membrane(silent=True, enable_adaptive=rng.random() < 0.5)
+            relay.import_antibodies(donor.export_antibodies())
+            donor = relay
         abs_ = donor.export_antibodies()
+        keys = [sig_key(a) for a in abs_]
         m.import_antibodies(abs_)
-        mm.imp([sig_key(a) for a in abs_])
+        mm.imp(keys)
+        if rng.random() < 0.5:
+            abs_.clear()
+            for k in keys:
+                donor.forget_threat(k[0])
+    elif kind == "rate-limit":             # the public `rate_limit` attribute (what the constructor option is stored in)
+        m.rate_limit = spec
+        mm.rate_limit = spec
+        mm.allowed_times = []              # reading: a new limit bounds the admissions made under it
+    elif kind == "adaptive":
+        m.enable_adaptive = spec
+        mm.adaptive = spec
+    elif kind == "clear-audit":
+        m.clear_audit_log()
+    elif kind == "self-import":            # the gate's own antibodies handed back to it: no rule changes
+        m.import_antibodies(m.export_antibodies())
     elif kind == "forget":
         m.forget_threat(spec[0])
         mm.forget(spec[0])
@@ -219,26 +339,94 @@ def make_input(rng, active, others, inst_fn=M.sig_instance):
     style = rng.random()
     if insts and style < 0.12:
         return insts[0], recipe + ["bare"]
-    return M.compose(rng, insts, hostile_p=0.12 if rng.random() < 0.5 else 0.0), recipe
+    text = M.compose(rng, insts, hostile_p=0.12 if rng.random() < 0.5 else 0.0)
+    if style > 0.9975:                     # the instances sit behind (or between) a long run of benign words
+        pad = M._words(rng.choice([4_000, 4_000, 33_000, 33_000, 70_000, 70_000, 131_100, 131_100, 300_000, 1_050_000]))
+        text = pad + " " + text + (" " + pad[:rng.choice([0, 10, 5000])]).rstrip()
+        recipe = recipe + ["padded-%d" % len(pad)]
+    return text, recipe
 
 
 # ------------------------------------------------------------------ the membrane monitor
+SOURCES = ["User", "System", "system", "admin", "internal", "", "Membrane", "trusted"]
+METAS = [lambda: {}, lambda: {"trusted": True, "bypass": True, "role": "admin"}, lambda: {"allow": 1, "skip_filter": "yes"},
+         lambda: {"content": "ok", "nested": {"a": [1, 2, 3]}}]
+
+
+def make_signal(env, content):
+    """the Signal carrying `content`: sometimes the very same object as last time, sometimes an equal but distinct one, with
+    every optional field of the envelope varied (only the content may decide)"""
+    from operon_ai.core.types import Signal, SignalType, SignalStrength
+    rng = env.rng
+    old = env.signals.get(content)
+    if old is not None and rng.random() < 0.5:
+        return old
+    if rng.random() < 0.7:
+        s = Signal(content=content)
+    else:
+        s = Signal(content=content, source=rng.choice(SOURCES), signal_type=rng.choice(list(SignalType)),
+                   strength=rng.choice(list(SignalStrength)), metadata=rng.choice(METAS)(),
+                   trace_id=rng.choice([None, "", "trace-1"]))
+    if len(env.signals) < 64:
+        env.signals[content] = s
+    return s
+
+
+def poke_membrane(ctx, env):
+    """read-only / reporting API between two decisions; whatever it hands out is the caller's to modify"""
+    m, k = env.m, env.rng.randrange(6)
+    ctx.count("membrane_report_reads")
+    try:
+        if k == 0:
+            m.get_statistics()
+        elif k == 1:
+            m.get_audit_log().clear()
+        elif k == 2:
+            m.export_antibodies().clear()
+        elif k == 3:
+            repr(m), str(m)
+        elif k == 4:
+            [repr(x) for x in m.get_audit_log()[-3:]]
+        else:
+            m.get_statistics().clear()
+            m.get_audit_log().reverse()
+    except Exception:  # noqa (not a gate decision: counted, not judged)
+        ctx.count("membrane_report_api_raised")
+
+
 def step_filter(ctx, env, content, now=0.0, expect_block=None, tag="filter"):
-    from operon_ai.core.types import Signal
     m, mm = env.m, env.mm
     env.ops.append([tag, content if len(content) <= 300 else "<%d chars>" % len(content)])
     wit = dict(env.desc, content=content, t=now)
     mm.all_times.append(now)
+    if env.rng.random() < 0.1:
+        poke_membrane(ctx, env)
+        env.ops.append(["report-api-read"])
     before = len(m.get_audit_log())
+    ncb = len(env.cb_calls)
     try:
-        r = m.filter(Signal(content=content))
+        r = m.filter(make_signal(env, content))
     except (KeyboardInterrupt, SystemExit):
         raise
+    except CallbackBoom as e:
+        # the user's own on_threat exception coming back out of filter(): it may propagate. The decision it interrupted is the one
+        # that was handed to the callback; everything the gate owes for that decision (audit entry, replay memory, window slot)
+        # is judged on it exactly as if it had been returned
+        ctx.count("membrane_on_threat_raised_through_filter")
+        if len(env.cb_calls) == ncb:
+            ctx.violation("filter-raises:%s" % type(e).__name__, "Membrane.filter raised the callback's exception without calling it", wit)
+            return None
+        r = env.cb_calls[-1]
+        wit["on_threat_raised"] = True
     except BaseException as e:  # noqa: totality monitor
         ctx.count("membrane_filter_raised")
         ctx.violation("filter-raises:%s" % type(e).__name__, "Membrane.filter raised %s: %s" % (type(e).__name__, str(e)[:160]), wit)
         return None
     ctx.count("membrane_filter_calls")
+    if len(env.cb_calls) > ncb:
+        ctx.count("membrane_on_threat_calls")
+    if mm.rate_limit is not None and mm.rate_limit == 0:
+        ctx.count("membrane_rate_limit_zero_decisions")
     # ---- audit trail
     log = m.get_audit_log()
     ctx.count("membrane_audit_checks")
@@ -351,70 +539,143 @@ def case_minput(ctx, n, rng):
         ctx.sample({"kind": "membrane-input", "config": env.desc})
 
 
-ADVANCES = [0.5, 1.0, 5.0, 20.0, 30.0, 45.0, 58.0, 62.0, 70.0, 130.0]
+ADVANCES = [0.001, 0.25, 0.5, 1.0, 5.0, 20.0, 30.0, 45.0, 58.0, 62.0, 70.0, 130.0, 3600.0, 86_400.0, 90_061.5, 8 * 86_400.0, 1.0e7]
+CLOCK_BASES = [1_700_000_000.0, 1_700_000_000.0, 0.0, 30.5, 4.0e9, 1.0e12]
 
 
 def advance(clock, mm, rng, dt=None):
     dt = rng.choice(ADVANCES) if dt is None else dt
     target = clock.base + clock.offset + dt
-    while any(abs(target - t - M.WINDOW) < 1.0 for t in mm.all_times):
+    mms = mm if isinstance(mm, (list, tuple)) else [mm]
+    while any(abs(target - t - M.WINDOW) < 1.0 for x in mms for t in x.all_times):
         target += 1.37
     clock.advance(target - (clock.base + clock.offset))
     return target
 
 
+def name_variant(rng, mm):
+    """a learned substring pattern's text in another case: a different name for learn / forget, the same matcher"""
+    subs = [k for k in sorted(mm.learned.values()) if not k[1]]
+    if subs:
+        k = rng.choice(subs)
+        v = M.case_perturb(k[0], rng)
+        if v and v != k[0]:
+            return (v, False, rng.randint(0, 3))
+    return None
+
+
+def pick_rate(rng):
+    return rng.choice([None, None, None, None, 1, 2, 3, 5, 1, 2, 3, 5] + RATE_DEGENERATE)
+
+
+def mhist_step(ctx, env, rng, clock, pool, future, all_models=None):
+    """one step of a membrane history: a decision, a rule change by any route, a maintenance call, or the clock moves"""
+    mm = env.mm
+    now = clock.base + clock.offset
+    r = rng.random()
+    if r < 0.50:
+        if mm.rate_limit is not None and rng.random() < 0.35:
+            x = M.benign_text(rng, 2, 5) + " #%d" % rng.randrange(10 ** 6)     # fresh, allowed unless a rule says otherwise
+        else:
+            x = rng.choice(pool)
+            if rng.random() < 0.15:
+                x = M.case_perturb(x, rng) or x
+        step_filter(ctx, env, x, now)
+    elif r < 0.58:
+        v = name_variant(rng, mm) if rng.random() < 0.25 else None
+        apply_rule_op(env, "learn", v or (rng.choice(future) if rng.random() < 0.7 else gen_sigspec(rng, 3)))
+    elif r < 0.65:
+        v = name_variant(rng, mm) if rng.random() < 0.2 else None
+        if v:
+            apply_rule_op(env, "forget", v)
+        elif mm.learned and rng.random() < 0.85:
+            apply_rule_op(env, "forget", rng.choice(sorted(mm.learned.values())))
+        else:
+            apply_rule_op(env, "forget", rng.choice(future))
+    elif r < 0.70:
+        apply_rule_op(env, "import", rng.choice(future))
+    elif r < 0.75:
+        apply_rule_op(env, "add", rng.choice(future) if rng.random() < 0.5 else gen_sigspec(rng, 3))
+    elif r < 0.82:
+        apply_rule_op(env, "threshold", rng.choice([0, 1, 2, 3, 3, 3]))
+    elif r < 0.85 and mm.learned:            # rotate: one learned pattern out, another in, nothing filtered in between
+        apply_rule_op(env, "forget", rng.choice(sorted(mm.learned.values())))
+        apply_rule_op(env, learn_route(rng, mm), rng.choice(future))
+    elif r < 0.88 and mm.learned:            # overwrite a learned pattern under its own name (other level and / or matcher)
+        k = rng.choice(sorted(mm.learned.values()))
+        flip = rng.random() < 0.3 and (k[1] or regex_ok(k[0]))
+        apply_rule_op(env, learn_route(rng, mm), (k[0], (not k[1]) if flip else k[1], rng.randint(0, 3)))
+    elif r < 0.92:                           # configuration / maintenance between decisions
+        k = rng.random()
+        if k < 0.4:
+            apply_rule_op(env, "rate-limit", pick_rate(rng))
+        elif k < 0.65:
+            apply_rule_op(env, "adaptive", rng.random() < 0.5)
+        elif k < 0.8:
+            apply_rule_op(env, "self-import", None)
+        else:
+            apply_rule_op(env, "clear-audit", None)
+    else:
+        t = advance(clock, all_models or mm, rng)
+        env.ops.append(["advance-to", round(t - clock.base, 3)])
+
+
+def gen_pool(rng, envs, future):
+    active = [k for e in envs for k in e.mm.active()]
+    others = [k for e in envs for k in e.removed + e.inactive]
+    pool = [make_input(rng, active + future, others)[0] for _ in range(rng.randint(2, 5))]
+    pool.append(M.benign_text(rng, 2, 6))
+    return pool
+
+
 def case_mhist(ctx, n, rng):
     import operon_ai.organelles.membrane as mod
-    rate = rng.choice([None, None, None, 1, 2, 3, 5])
-    env = build_membrane(rng, rate_limit=rate)
-    mm = env.mm
-    clock = VClock(1_700_000_000.0)
+    env = build_membrane(rng, rate_limit=pick_rate(rng))
+    clock = VClock(rng.choice(CLOCK_BASES))
+    env.desc["clock_base"] = clock.base
     future = [gen_sigspec(rng, 3) for _ in range(3)]
-    pool = []
-    for _ in range(rng.randint(2, 5)):
-        pool.append(make_input(rng, mm.active() + future, env.removed + env.inactive)[0])
-    pool.append(M.benign_text(rng, 2, 6))
+    pool = gen_pool(rng, [env], future)
     steps = rng.randint(4, 12)
     ctx.count("histories")
     with patched(clock, mod):
         for _ in range(steps):
-            now = clock.base + clock.offset
-            r = rng.random()
-            if r < 0.52:
-                if rate is not None and rng.random() < 0.35:
-                    x = M.benign_text(rng, 2, 5) + " #%d" % rng.randrange(10 ** 6)     # fresh, allowed unless a rule says otherwise
-                else:
-                    x = rng.choice(pool)
-                    if rng.random() < 0.15:
-                        x = M.case_perturb(x, rng) or x
-                step_filter(ctx, env, x, now)
-            elif r < 0.60:
-                apply_rule_op(env, "learn", rng.choice(future) if rng.random() < 0.7 else gen_sigspec(rng, 3))
-            elif r < 0.67:
-                if mm.learned and rng.random() < 0.85:
-                    apply_rule_op(env, "forget", rng.choice(sorted(mm.learned.values())))
-                else:
-                    apply_rule_op(env, "forget", rng.choice(future))
-            elif r < 0.72:
-                apply_rule_op(env, "import", rng.choice(future))
-            elif r < 0.77:
-                apply_rule_op(env, "add", rng.choice(future) if rng.random() < 0.5 else gen_sigspec(rng, 3))
-            elif r < 0.85:
-                apply_rule_op(env, "threshold", rng.choice([0, 1, 2, 3, 3, 3]))
-            elif r < 0.88 and mm.learned:            # rotate: one learned pattern out, another in, nothing filtered in between
-                apply_rule_op(env, "forget", rng.choice(sorted(mm.learned.values())))
-                apply_rule_op(env, learn_route(rng, mm), rng.choice(future))
-            elif r < 0.91 and mm.learned:            # overwrite a learned pattern under its own name (other level and / or matcher)
-                k = rng.choice(sorted(mm.learned.values()))
-                flip = rng.random() < 0.3 and (k[1] or regex_ok(k[0]))
-                apply_rule_op(env, learn_route(rng, mm), (k[0], (not k[1]) if flip else k[1], rng.randint(0, 3)))
-            else:
-                t = advance(clock, mm, rng)
-                env.ops.append(["advance-to", round(t - clock.base, 2)])
+            mhist_step(ctx, env, rng, clock, pool, future)
     if clock.reads == 0 and any(op[0] == "filter" for op in env.ops):
         ctx.inconclusive("the virtual clock was never read by Membrane.filter (time source changed?)")
     if n % 500 == 17:
         ctx.sample({"kind": "membrane-history", "config": env.desc})
+
+
+def case_multi(ctx, n, rng):
+    """two or three membranes and one or two innate gates, configured differently, alive in the same process and used
+    alternately on a shared pool of inputs: each is judged against its own history only"""
+    import operon_ai.organelles.membrane as mod
+    envs = [build_membrane(rng, rate_limit=pick_rate(rng)) for _ in range(rng.choice([2, 2, 3]))]
+    ienvs = [build_innate(rng) for _ in range(rng.choice([1, 2]))]
+    clock = VClock(rng.choice(CLOCK_BASES))
+    for j, e in enumerate(envs):
+        e.desc.update(instance=j, of=len(envs), clock_base=clock.base)
+    for j, e in enumerate(ienvs):
+        e.desc.update(instance=j, of=len(ienvs))
+    future = [gen_sigspec(rng, 3) for _ in range(3)]
+    pool = gen_pool(rng, envs, future)
+    ipool = [make_input(rng, [k for e in ienvs for k in e.active], [k for e in ienvs for k in e.removed])[0] for _ in range(3)]
+    ctx.count("histories")
+    ctx.count("multi_instance_sessions")
+    models = [e.mm for e in envs]
+    with patched(clock, mod):
+        for _ in range(rng.randint(8, 20)):
+            if rng.random() < 0.2:
+                ie = rng.choice(ienvs)
+                if rng.random() < 0.25:
+                    innate_add(ie, gen_sigspec(rng, 5), rng)
+                else:
+                    step_check(ctx, ie, rng.choice(ipool + pool))
+            else:
+                ctx.count("multi_instance_membrane_steps")
+                mhist_step(ctx, rng.choice(envs), rng, clock, pool, future, models)
+    if n % 500 == 26:
+        ctx.sample({"kind": "several-gates", "configs": [e.desc for e in envs]})
 
 
 def case_mrelax(ctx, n, rng):
@@ -592,26 +853,71 @@ class IEnv:
     pass
 
 
-def gen_validators(rng):
+_VERDICT_OK = (True, None)
+_VERDICT_BAD = (False, "marker found")
+
+
+class MarkerValidator:
+    """a validator the user wrote: rejects content that contains its marker word. It hands back the same two tuple objects
+    for every request, and can be told to raise its own exception on one particular call."""
+
+    def __init__(self, marker, boom_at=0):
+        self.marker, self.boom_at, self.calls = marker, boom_at, 0
+
+    def validate(self, content):
+        self.calls += 1
+        if self.calls == self.boom_at:
+            raise CallbackBoom("validator call #%d" % self.calls)
+        return _VERDICT_BAD if self.marker in content else _VERDICT_OK
+
+
+MARKERS = ["report", "the", "42", "\x00", "I", "e", "\n"]
+
+
+def one_validator(rng, kind):
+    """(spec, validator object) of one kind, degenerate option values included"""
     from operon_ai.surveillance.innate import JSONValidator, LengthValidator, CharacterSetValidator
+    if kind == "json":
+        d, s = rng.choice([2, 5, 10, 10, 10, 0, 1, 10 ** 6]), rng.choice([60, 2000, 100_000, 100_000, 100_000, 0, 1, 2 ** 53 + 1])
+        if rng.random() < 0.3:
+            return ("json", 10, 100_000), JSONValidator()
+        return ("json", d, s), JSONValidator(max_depth=d, max_size=s)
+    if kind == "length":
+        lo, hi = rng.choice([0, 0, 0, 5, 12, 1, 100]), rng.choice([30, 200, 100_000, 100_000, 0, 1, 10 ** 12])
+        return ("length", lo, hi), LengthValidator(min_length=lo, max_length=hi)
+    if kind == "marker":
+        mk = rng.choice(MARKERS)
+        return ("marker", mk), MarkerValidator(mk, boom_at=rng.choice([0, 0, 0, 2, 3, 5]))
+    ac, an = rng.random() < 0.3, rng.random() < 0.3
+    return ("charset", ac, an), CharacterSetValidator(allow_control_chars=ac, allow_null=an)
 
-    def one(kind):
-        if kind == "json":
-            d, s = rng.choice([2, 5, 10, 10]), rng.choice([60, 2000, 100_000, 100_000])
-            return ("json", d, s), JSONValidator(max_depth=d, max_size=s)
-        if kind == "length":
-            lo, hi = rng.choice([0, 0, 5, 12]), rng.choice([30, 200, 100_000])
-            return ("length", lo, hi), LengthValidator(min_length=lo, max_length=hi)
-        ac, an = rng.random() < 0.3, rng.random() < 0.3
-        return ("charset", ac, an), CharacterSetValidator(allow_control_chars=ac, allow_null=an)
 
+def gen_validators(rng):
     r = rng.random()
-    if r < 0.35:
-        return None, [(("length", 0, 100_000), None), (("charset", False, False), None)]
+    if r < 0.35:                           # no validators given (None, or an empty list): the gate's own default pair
+        return (None if r < 0.28 else []), [(("length", 0, 100_000), None), (("charset", False, False), None)]
     kinds = rng.choice([["json"], ["json"], ["json", "length"], ["charset"], ["length"], ["length", "charset"], ["json", "length", "charset"],
-                        ["charset", "json"]])
-    pairs = [one(k) for k in kinds]
+                        ["charset", "json"], ["marker"], ["marker", "length"], ["json", "marker"]])
+    pairs = [one_validator(rng, k) for k in kinds]
     return [v for _, v in pairs], pairs
+
+
+def rejected_example(rng, spec):
+    """an input the validator `spec` has to reject (None when there is none worth trying)"""
+    if spec[0] == "length":
+        if spec[2] <= 5000:
+            return M.benign_text(rng, 1, 3) + " " + "y" * (spec[2] + 1)
+        return "" if spec[1] > 0 else None
+    if spec[0] == "charset":
+        if not spec[2]:
+            return "hello\x00world"
+        return "bell \x07 rings" if not spec[1] else None
+    if spec[0] == "json":
+        deep = ["[" * (spec[1] + 3) + "]" * (spec[1] + 3)] if spec[1] <= 50 else []
+        return rng.choice(["{not json", "[1, 2", "plain words"] + deep)
+    if spec[0] == "marker":
+        return M.benign_text(rng, 1, 3) + spec[1] + M.benign_text(rng, 1, 2)
+    return None
 
 
 def build_innate(rng):
@@ -625,21 +931,38 @@ def build_innate(rng):
     else:
         keep = [p for p in defaults if rng.random() < 0.6]
     cls = InnateImmunity if keep is defaults else type("SubsetInnate", (InnateImmunity,), {"DEFAULT_PATTERNS": keep})
-    thr = rng.choice([1, 2, 3, 3, 3, 4, 5])
-    specs = [gen_sigspec(rng, 5) for _ in range(rng.choice([0, 0, 1, 2, 3, 4]))]
+    thr = rng.choice([1, 2, 3, 3, 3, 4, 5] * 3 + ODD_THRESHOLDS)
+    specs = [gen_patspec(rng) for _ in range(rng.choice([0, 0, 1, 2, 3, 4]))]
     routes = [rng.choice(["ctor", "add"]) for _ in specs]
     cats = list(PAMPCategory)
-    ctor = [TLRPattern(p, rng.choice(cats), "custom", is_regex=rx, severity=l) for (p, rx, l), rt in zip(specs, routes) if rt == "ctor"]
+    ctor = [TLRPattern(p, rng.choice(cats), describe(rng), is_regex=rx, severity=l) for (p, rx, l), rt in zip(specs, routes) if rt == "ctor"]
     vlist, vpairs = gen_validators(rng)
-    imm = cls(patterns=ctor or None, validators=vlist, severity_threshold=thr, silent=SILENT[0])
-    if vlist is None:
-        vpairs = [(spec, v) for (spec, _), v in zip(vpairs, imm.validators)]
+    cb_mode = rng.choice([None] * 10 + ["record", "raise-some", "raise-some", "reenter"])
+    decay = rng.choice([15] * 6 + [0, 0.001, 1, 10 ** 6])
     env = IEnv()
-    env.imm, env.thr, env.vpairs = imm, thr, list(vpairs)
+    env.cb_calls = []
+
+    def on_inflammation(response):
+        env.cb_calls.append(response)
+        if cb_mode == "raise-some" and len(env.cb_calls) % 3 == 1:
+            raise CallbackBoom("on_inflammation #%d" % len(env.cb_calls))
+        if cb_mode == "reenter":
+            env.imm.stats(), env.imm.get_inflammation_state()
+
+    handed = list(ctor) if (ctor or rng.random() < 0.5) else None
+    kw = {} if (decay == 15 and rng.random() < 0.5) else {"inflammation_decay_minutes": decay}
+    imm = cls(patterns=handed, validators=vlist, severity_threshold=thr, silent=SILENT[0],
+              on_inflammation=on_inflammation if cb_mode else None, **kw)
+    if handed:
+        handed.clear()
+    if not vlist:
+        vpairs = [(spec, v) for (spec, _), v in zip(vpairs, imm.validators)]
+    env.imm, env.thr, env.vpairs, env.rng = imm, thr, list(vpairs), rng
     env.active = [pat_key(p) for p in keep] + [pat_key(p) for p in ctor]
     env.removed = [pat_key(p) for p in defaults if p not in keep]
     env.ops = []
     env.desc = {"gate": "innate", "defaults_kept": "all" if keep is defaults else [p.pattern for p in keep], "severity_threshold": thr,
+                "inflammation_decay_minutes": decay, "on_inflammation": cb_mode,
                 "ctor_patterns": [pat_key(p) for p in ctor], "validators": [list(s) for s, _ in vpairs], "ops": env.ops}
     for spec, rt in zip(specs, routes):
         if rt == "add":
@@ -647,29 +970,87 @@ def build_innate(rng):
     return env
 
 
+ODD_THRESHOLDS = [0, 6, 2.5, 0.3, 100, 3.0]
+ODD_SEVERITIES = [0, -1, 2.5, 0.1 + 0.2, 6, 10, 2 ** 53 + 1, float("inf"), 3.0, -0.0]
+SEVERITIES = [0, 0.1 + 0.2, 1, 2, 2.5, 3, 4, 5, 6, 100]
+
+
+def gen_patspec(rng):
+    """(pattern, is_regex, severity): the documented 1-5 scale mostly, now and then a value off the scale or fractional"""
+    p, rx, sev = gen_sigspec(rng, 5)
+    if rng.random() < 0.06:
+        sev = rng.choice(ODD_SEVERITIES)
+    return (p, rx, sev)
+
+
 def innate_add(env, spec, rng):
     from operon_ai.surveillance.innate import TLRPattern, PAMPCategory
-    env.imm.add_pattern(TLRPattern(spec[0], rng.choice(list(PAMPCategory)), "added", is_regex=spec[1], severity=spec[2]))
+    env.imm.add_pattern(TLRPattern(spec[0], rng.choice(list(PAMPCategory)), describe(rng), is_regex=spec[1], severity=spec[2]))
     env.active.append(spec)
     env.ops.append(["add_pattern", spec])
+
+
+def innate_add_validator(env, rng):
+    """add_validator() between two checks; returns an input the new validator has to reject (or None)"""
+    spec, v = one_validator(rng, rng.choice(["json", "length", "charset", "marker"]))
+    env.imm.add_validator(v)
+    env.vpairs.append((spec, v))
+    env.desc["validators"].append(list(spec))
+    env.ops.append(["add_validator", list(spec)])
+    return rejected_example(rng, spec)
+
+
+def poke_innate(ctx, env):
+    imm, k = env.imm, env.rng.randrange(5)
+    ctx.count("innate_report_reads")
+    try:
+        if k == 0:
+            imm.stats().clear()
+        elif k == 1:
+            repr(imm.get_inflammation_state())
+        elif k == 2:
+            repr(imm), str(imm)
+        elif k == 3:
+            imm.reset_inflammation()           # maintenance: escalation state only, never part of a verdict that is judged here
+        else:
+            imm.get_inflammation_state().is_in_cooldown()
+    except Exception:  # noqa (not a gate decision: counted, not judged)
+        ctx.count("innate_report_api_raised")
 
 
 def step_check(ctx, env, content, expect_block=None, tag="check"):
     imm = env.imm
     env.ops.append([tag, content if len(content) <= 300 else "<%d chars>" % len(content)])
     wit = dict(env.desc, content=content)
-    try:
-        r = imm.check(content)
-    except (KeyboardInterrupt, SystemExit):
-        raise
-    except BaseException as e:  # noqa: totality monitor
-        ctx.count("innate_check_raised")
-        ctx.violation("check-raises:%s" % type(e).__name__, "InnateImmunity.check raised %s: %s" % (type(e).__name__, str(e)[:160]), wit)
+    if env.rng.random() < 0.1:
+        poke_innate(ctx, env)
+        env.ops.append(["report-api-read"])
+    r = None
+    for attempt in range(4):
+        try:
+            r = imm.check(content)
+            break
+        except (KeyboardInterrupt, SystemExit):
+            raise
+        except CallbackBoom:
+            # the user's own exception (on_inflammation callback / user validator) coming back out of check(): it may propagate.
+            # What is owed afterwards: the gate still answers, and answers right - the same input is checked again
+            ctx.count("innate_user_exception_through_check")
+            env.ops.append(["user-exception-propagated"])
+        except BaseException as e:  # noqa: totality monitor
+            ctx.count("innate_check_raised")
+            ctx.violation("check-raises:%s" % type(e).__name__, "InnateImmunity.check raised %s: %s" % (type(e).__name__, str(e)[:160]), wit)
+            return None
+    if r is None:
+        ctx.count("innate_check_gave_up_after_user_exceptions")
         return None
     ctx.count("innate_check_calls")
+    if isinstance(env.thr, float) or not 1 <= env.thr <= 5:
+        ctx.count("innate_odd_threshold_checks")
     C = M.Content(content)
     must, amb = M.scan(env.active, C)
-    sev = max((k[2] for k in must), default=0)
+    hits = [k[2] for k in must if k[2] >= env.thr]
+    sev = max(hits, default=0)
     real = Counter(pat_key(p) for p in r.matched_patterns)
     rej_real, rej_doc = [], []
     for spec, v in env.vpairs:
@@ -681,6 +1062,8 @@ def step_check(ctx, env, content, expect_block=None, tag="check"):
             ok = None
         if ok is False:
             rej_real.append(list(spec))
+            if spec[0] == "marker":
+                ctx.count("innate_user_validator_rejections")
         if M.contract_rejects(spec, content) is True:
             rej_doc.append(list(spec))
     wit.update(allowed=r.allowed, matched=sorted(real.elements()), model_must_match=sorted(must.elements()), model_severity=sev,
@@ -689,8 +1072,8 @@ def step_check(ctx, env, content, expect_block=None, tag="check"):
         ctx.violation("innate-matched-set-mismatch", "matched_patterns differs from the active patterns that match the input", wit)
     if r.allowed:
         ctx.count("innate_allowed")
-        if sev >= env.thr:
-            ctx.violation("innate-allowed-despite-pattern", "allowed although an active pattern of severity %d >= threshold %d matches" % (
+        if hits:
+            ctx.violation("innate-allowed-despite-pattern", "allowed although an active pattern of severity %s >= threshold %s matches" % (
                 sev, env.thr), wit)
         if rej_real:
             ctx.violation("innate-allowed-despite-validator", "allowed although a configured structural validator rejects the input", wit)
@@ -698,7 +1081,7 @@ def step_check(ctx, env, content, expect_block=None, tag="check"):
             ctx.violation("innate-validator-contract", "allowed although the documented contract of a shipped validator requires rejection", wit)
         path = "allow"
     else:
-        if sev >= env.thr:
+        if hits:
             ctx.count("innate_blocked_by_pattern")
             path = "pattern"
         elif rej_real or rej_doc:
@@ -755,10 +1138,39 @@ def gen_jsonish(rng, env):
     return s
 
 
+IADVANCES = [0.0, 0.5, 59.0, 3600.0, 2 * 86_400.0 + 0.5, 40 * 86_400.0, 900.0, 899.999]
+
+
+@contextlib.contextmanager
+def innate_clock(rng, env):
+    """virtual time for the escalation state (module-level `datetime` of the innate module); the workload moves it by anything
+    from nothing to many days between two checks"""
+    import operon_ai.surveillance.innate as imod
+    clock = VClock(rng.choice(CLOCK_BASES[:5]) + 86_400.0)
+    env.clock = clock
+    with patched(clock, imod):
+        yield clock
+
+
+def innate_tick(env, rng):
+    if rng.random() < 0.5:
+        dt = rng.choice(IADVANCES)
+        env.clock.advance(dt)
+        env.ops.append(["advance", dt])
+
+
 def case_innate(ctx, n, rng):
     env = build_innate(rng)
-    has_json = any(s[0] == "json" for s, _ in env.vpairs)
+    with innate_clock(rng, env):
+        _case_innate(ctx, n, rng, env)
+    if n % 500 == 11:
+        ctx.sample({"kind": "innate-input", "config": env.desc})
+
+
+def _case_innate(ctx, n, rng, env):
     for _ in range(rng.choice([1, 2, 2, 3])):
+        has_json = any(s[0] == "json" for s, _ in env.vpairs)
+        innate_tick(env, rng)
         if has_json and rng.random() < 0.7:
             x = gen_jsonish(rng, env)
         else:
@@ -772,13 +1184,20 @@ def case_innate(ctx, n, rng):
             ctx.count("innate_embeddings_checked")
             step_check(ctx, env, M.embed(x, rng), expect_block="embedding", tag="check-embedded")
         if rng.random() < 0.3:
-            spec = gen_sigspec(rng, 5)
+            spec = gen_patspec(rng)
             innate_add(env, spec, rng)
             inst = M.sig_instance(spec, rng)
             if inst:
                 step_check(ctx, env, M.compose(rng, [inst], hostile_p=0.0), tag="check-after-add")
-    if n % 500 == 11:
-        ctx.sample({"kind": "innate-input", "config": env.desc})
+        if rng.random() < 0.15:
+            bad = innate_add_validator(env, rng)
+            ctx.count("innate_validators_added_mid_session")
+            if bad is not None:
+                if rng.random() < 0.5 and env.active:       # ... carrying an instance of some pattern as well
+                    inst = M.sig_instance(rng.choice(env.active), rng)
+                    if inst and env.vpairs[-1][0][0] in ("marker", "charset"):
+                        bad = inst + " " + bad
+                step_check(ctx, env, bad, tag="check-after-add-validator")
 
 
 def innate_edit(env, kind, old, new, rng):
@@ -803,10 +1222,11 @@ def iswap_round(ctx, env, rng):
     """the innate twin of mswap_round: check x while it passes, edit the pattern list, check the identical x again"""
     thr = env.thr
     kind = rng.choice(ISWAPS)
-    if kind == "overwrite-severity" and thr == 1:
-        kind = "replace-pattern"
     base = gen_sigspec(rng, 5)
-    S = (base[0], base[1], rng.randint(thr, 5))
+    S = (base[0], base[1], rng.choice([v for v in SEVERITIES if v >= thr] or [thr]))
+    below = [v for v in SEVERITIES if v < thr]
+    if kind == "overwrite-severity" and not below:
+        kind = "replace-pattern"
     D = None
     if kind in ("replace-pattern", "remove-add-pattern"):
         if env.active and rng.random() < 0.35:
@@ -815,7 +1235,7 @@ def iswap_round(ctx, env, rng):
             D = decoy_spec(rng, 5, S[0])
             innate_add(env, D, rng)
     elif kind == "overwrite-severity":
-        D = (S[0], S[1], rng.randint(1, thr - 1))
+        D = (S[0], S[1], rng.choice(below))
         innate_add(env, D, rng)
     elif kind == "overwrite-matcher":
         pat = rng.choice(M.CUSTOM_RX + [p for p in M.CUSTOM_SUB if regex_ok(p)])
@@ -868,26 +1288,353 @@ def iswap_round(ctx, env, rng):
 def case_iswap(ctx, n, rng):
     env = build_innate(rng)
     ctx.count("histories")
-    for _ in range(rng.choice([1, 2, 2, 3, 4])):
-        iswap_round(ctx, env, rng)
+    with innate_clock(rng, env):
+        for _ in range(rng.choice([1, 2, 2, 3, 4])):
+            innate_tick(env, rng)
+            iswap_round(ctx, env, rng)
     if n % 500 == 24:
         ctx.sample({"kind": "innate-rule-change-session", "config": env.desc})
 
 
+# ------------------------------------------------------------------ long histories on one gate
+def small_membrane(rng, **kw):
+    """a membrane with three built-in signatures (one per level): cheap enough for tens of thousands of decisions"""
+    from operon_ai.organelles.membrane import Membrane
+    keep = [s for s in Membrane.INNATE_SIGNATURES if s.pattern in ("jailbreak", "you are now", r"Human:|Assistant:")]
+    cls = type("SmallMembrane", (Membrane,), {"INNATE_SIGNATURES": keep})
+    return cls(silent=True, **kw), [sig_key(s) for s in keep]
+
+
+class AuditWatch:
+    """the audit trail over a long session: it holds one entry per decision made so far, the first one still in front"""
+
+    def __init__(self, ctx, env):
+        self.ctx, self.env, self.calls, self.first, self.last = ctx, env, 0, None, None
+
+    def saw(self, r):
+        self.calls += 1
+        self.last = r
+        if self.first is None:
+            self.first = r
+
+    def judge(self, where):
+        log = self.env.m.get_audit_log()
+        self.ctx.count("membrane_long_audit_checks")
+        ok = len(log) == self.calls and (not log or ((log[0] is self.first or log[0] == self.first)
+                                                     and (log[-1] is self.last or log[-1] == self.last)))
+        if not ok:
+            self.ctx.violation("membrane-audit-missing", "after %d decisions on one gate the audit trail holds %d entries%s" % (
+                self.calls, len(log), "" if len(log) != self.calls else " and its first / last entry is not the first / last decision"),
+                dict(self.env.desc, where=where, decisions=self.calls, audit_entries=len(log)))
+        return ok
+
+
+def fast_filter(ctx, env, watch, x, now=0.0):
+    """one decision of a long session: judged against the rule history like any other (allowed only if no active signature at /
+    above the threshold matches; an input refused before is never allowed), with per-call audit bookkeeping left to AuditWatch"""
+    from operon_ai.core.types import Signal
+    m, mm = env.m, env.mm
+    try:
+        r = m.filter(Signal(content=x))
+    except (KeyboardInterrupt, SystemExit):
+        raise
+    except BaseException as e:  # noqa: totality monitor
+        ctx.violation("filter-raises:%s" % type(e).__name__, "Membrane.filter raised %s: %s" % (type(e).__name__, str(e)[:160]),
+                      dict(env.desc, content=x, decisions_so_far=watch.calls))
+        return None
+    watch.saw(r)
+    ctx.count("membrane_filter_calls")
+    ctx.count("long_session_operations")
+    if r.allowed:
+        ctx.count("membrane_allowed")
+        must, amb = M.scan(mm.active(), M.Content(x))
+        lvl = max((k[2] for k in must), default=0)
+        wit = None
+        if x in mm.blocked:
+            wit = ("membrane-replay-forgotten", "an input that was blocked before is allowed now")
+        elif lvl >= mm.threshold:
+            wit = ("membrane-allowed-despite-signature", "allowed although an active signature of level %d >= threshold %d matches" % (lvl, mm.threshold))
+        if wit:
+            ctx.violation(wit[0], wit[1] + " (decision %d of a long session)" % watch.calls,
+                          dict(env.desc, content=x, decisions_so_far=watch.calls, refused_inputs_remembered=len(mm.blocked)))
+    elif r.matched_signatures or mm.rate_limit is None:
+        mm.blocked.add(x)                  # refused by a scan or by the replay memory (not by the rate window)
+    return r
+
+
+def long_sizes(ctx, rng, quick, thorough):
+    return rng.choice(quick) if ctx.tier == "quick" else rng.choice(thorough)
+
+
+def case_long_replay(ctx, n, rng):
+    """replay memory over a long history: inputs are blocked early (through a learned / imported pattern, an added signature, a
+    low threshold), tens of thousands of other distinct inputs are blocked after them, the rules are relaxed, the early ones
+    come back"""
+    from operon_ai.organelles.membrane import ThreatLevel
+    size = long_sizes(ctx, rng, [27_000, 41_000], [140_000, 270_000, 530_000])
+    if ctx.tier == "quick" and n - len(SWEEP) == 3:
+        size = 68_000
+    if ctx.tier != "quick" and n - len(SWEEP) == GIANT_AT:
+        size = 1_060_000
+    m, keys = small_membrane(rng, threshold=ThreatLevel(1), enable_adaptive=True)
+    env = new_menv(m, M.MembraneModel(keys, 1, True, None), rng,
+                   {"gate": "membrane", "kind": "long-replay", "builtins_kept": [k[0] for k in keys], "threshold": 1, "other_inputs_blocked": size})
+    mm = env.mm
+    ctx.count("long_sessions")
+    ctx.count("histories")
+    S = (("zq" + "".join(rng.choice("abcdeXYZ") for _ in range(4)) + " unit", False) if rng.random() < 0.6 else (r"tok_\d+", True)) + (rng.randint(1, 3),)
+    A = ("leak the key", False, rng.randint(1, 3))
+    apply_rule_op(env, learn_route(rng, mm), S)
+    apply_rule_op(env, "add", A)
+    inst = M.sig_instance(S, rng)
+    victims = []
+
+    def victim(tag):
+        k = rng.randrange(3)
+        x = ("%s %s" % (M.benign_text(rng, 1, 3), inst) if k == 0 else "%s leak the key" % M.benign_text(rng, 1, 3) if k == 1
+             else "and you are now %s" % M.benign_text(rng, 1, 2)) + " [%s %d]" % (tag, len(victims))
+        r = step_filter(ctx, env, x, tag="filter-early")
+        if r is not None:
+            watch.saw(r)
+            if not r.allowed:
+                victims.append(x)
+
+    watch = AuditWatch(ctx, env)
+    marks = {0, 1, 2, 3, size // 50, size // 7, size // 2, size - 9000, size - 3}
+    bulk = []
+    big = size > 400_000
+    for i in range(size):
+        if i in marks:
+            victim("at-%d" % i)
+        k = i & 15
+        if k == 0:
+            x = "note %d %s" % (i, "ok")                     # passes
+        elif k == 1 and bulk:
+            x = bulk[rng.randrange(len(bulk))]               # refused before: stays refused
+        else:
+            x = "%s #%d" % (inst, i)
+            if (i & 127) == 2:
+                bulk.append(x)
+        fast_filter(ctx, env, watch, x)
+        if (i & 511) == 7 and len(victims) > 1:              # every other early input keeps coming back all along, the rest stay away
+            fast_filter(ctx, env, watch, victims[1::2][(i >> 9) % len(victims[1::2])])
+            ctx.count("membrane_long_replay_repeats")
+        if (i & 8191) == 8191 and not big:
+            watch.judge("during")
+        if big and (i % 100_000) == 99_999:                  # (a million-entry trail is not kept: the public reset, then counted afresh)
+            watch.judge("during")
+            apply_rule_op(env, "clear-audit", None)
+            watch.calls, watch.first = 0, None
+    watch.judge("after the bulk")
+    # relax: S forgotten, A taken out of the list, threshold to CRITICAL - a fresh scan would let every victim through
+    apply_rule_op(env, "forget", S)
+    apply_rule_op(env, "remove-signature", A)
+    apply_rule_op(env, "threshold", 3)
+    for x in victims:
+        ctx.count("membrane_long_replay_victims_checked")
+        r = step_filter(ctx, env, x, tag="filter-after-long-history")
+        if r is not None:
+            watch.saw(r)
+    for x in rng.sample(bulk, min(len(bulk), 300)):
+        fast_filter(ctx, env, watch, x)
+        ctx.count("membrane_long_replay_bulk_rechecked")
+    watch.judge("at the end")
+    ctx.sample({"kind": "long-replay", "config": dict(env.desc, ops=env.ops[:6] + ["..."] + env.ops[-6:])})
+
+
+def case_long_rate(ctx, n, rng):
+    """the rate window over a long stream: tens of thousands of requests in bursts and lulls (milliseconds to many days apart)"""
+    import operon_ai.organelles.membrane as mod
+    from operon_ai.organelles.membrane import ThreatLevel
+    from operon_ai.core.types import Signal
+    size = long_sizes(ctx, rng, [21_000, 24_000], [60_000, 120_000])
+    limit = rng.choice([7, 60, 200, 200, 500])
+    m, keys = small_membrane(rng, threshold=ThreatLevel(2), rate_limit=limit)
+    env = new_menv(m, M.MembraneModel(keys, 2, True, limit), rng,
+                   {"gate": "membrane", "kind": "long-rate", "rate_limit": limit, "requests": size})
+    clock = VClock(rng.choice(CLOCK_BASES))
+    watch = AuditWatch(ctx, env)
+    admitted, passed = deque(), deque()
+    unit = 60.0 / (3 * limit)
+    ctx.count("long_sessions")
+    ctx.count("histories")
+    worst = 0
+    with patched(clock, mod):
+        for i in range(size):
+            r = rng.random()                 # about 3.7 x limit requests per minute on average, in bursts and lulls
+            clock.advance(0.0 if r < 0.3 else 0.1 * unit if r < 0.5 else 0.5 * unit if r < 0.8 else 2 * unit if r < 0.97
+                          else 10 * unit if r < 0.9995 else rng.choice([61.0, 3600.0, 90_061.5, 8 * 86_400.0]))
+            now = clock.base + clock.offset
+            x = "msg %d %s" % (i, "jailbreak" if i % 11 == 3 else "ok")
+            try:
+                res = m.filter(Signal(content=x))
+            except (KeyboardInterrupt, SystemExit):
+                raise
+            except BaseException as e:  # noqa: totality monitor
+                ctx.violation("filter-raises:%s" % type(e).__name__, "Membrane.filter raised %s" % type(e).__name__, dict(env.desc, content=x, request=i))
+                return
+            watch.saw(res)
+            ctx.count("membrane_filter_calls")
+            ctx.count("long_session_operations")
+            # tolerant windows: more than `limit` admissions inside 59 s break "at most rate_limit per window" whichever way the
+            # boundary is read; a refusal without a signature needs `limit` requests through the gate in the last 61 s
+            while admitted and admitted[0] <= now - 59.0:
+                admitted.popleft()
+            while passed and passed[0] <= now - 61.0:
+                passed.popleft()
+            if res.allowed:
+                ctx.count("membrane_allowed")
+                if len(admitted) >= limit:
+                    ctx.violation("membrane-rate-limit-exceeded", "input admitted although %d inputs were already admitted in the last 59 s (rate_limit=%d)" % (
+                        len(admitted), limit), dict(env.desc, request=i, t=now - clock.base))
+                admitted.append(now)
+                passed.append(now)
+                worst = max(worst, len(admitted))
+            elif res.matched_signatures:
+                passed.append(now)
+            else:
+                ctx.count("membrane_rate_refusals")
+                ctx.count("membrane_long_rate_refusals")
+                if len(passed) < limit:
+                    ctx.violation("membrane-refusal-without-cause", "refused with no matched signature although only %d request(s) passed the gate "
+                                  "in the last 61 s (rate_limit=%d) and the input is new" % (len(passed), limit), dict(env.desc, request=i, t=now - clock.base))
+            if (i & 8191) == 8191:
+                watch.judge("during")
+    watch.judge("at the end")
+    ctx.maxc("long_rate_admitted_in_a_window_over_limit_x1000", int(1000 * worst / limit))
+    if worst >= limit:
+        ctx.count("membrane_long_rate_windows_filled")
+    if clock.reads == 0:
+        ctx.inconclusive("the virtual clock was never read by Membrane.filter (time source changed?)")
+    ctx.sample({"kind": "long-rate", "config": env.desc, "most_admitted_in_59s": worst})
+
+
+def case_long_rules(ctx, n, rng):
+    """rule memory over a long history: tens of thousands of signatures learned / imported / added on one membrane, patterns
+    added on one innate gate; the oldest, a middle one and the newest are still active afterwards; then most are forgotten"""
+    from operon_ai.organelles.membrane import Membrane, ThreatLevel, ThreatSignature
+    from operon_ai.surveillance.innate import InnateImmunity, TLRPattern, PAMPCategory
+    size = long_sizes(ctx, rng, [21_000, 26_000], [70_000, 140_000])
+    ctx.count("long_sessions")
+    ctx.count("histories")
+    # ---- membrane
+    m, keys = small_membrane(rng, threshold=ThreatLevel(2), enable_adaptive=True)
+    env = new_menv(m, M.MembraneModel(keys, 2, True, None), rng, {"gate": "membrane", "kind": "long-rules", "rules": size})
+    mm = env.mm
+    donor = Membrane(silent=True)
+    batch, probes = [], []
+    for i in range(size):
+        spec = ("zqr%dx" % i, False, 2 + (i & 1))
+        route = ("learn", "import", "add")[i % 3]
+        if route == "learn":
+            m.learn_threat(spec[0], ThreatLevel(spec[2]), "learned")
+            mm.learn(spec)
+        elif route == "add":
+            m.add_signature(ThreatSignature(spec[0], ThreatLevel(spec[2]), "added"))
+            mm.add(spec)
+        else:
+            batch.append(spec)
+            if len(batch) == 500 or i >= size - 3:
+                d2 = Membrane(silent=True)
+                for b in batch:
+                    d2.learn_threat(b[0], ThreatLevel(b[2]), "donor")
+                m.import_antibodies(d2.export_antibodies())
+                mm.imp(batch)
+                batch = []
+        ctx.count("long_session_operations")
+        if i < 6 or i >= size - 6 or i in (size // 3, size // 3 + 1, size // 3 + 2, size // 2, size // 2 + 1, size // 2 + 2):
+            probes.append(spec)
+    if batch:
+        m.import_antibodies([ThreatSignature(b[0], ThreatLevel(b[2]), "late") for b in batch])
+        mm.imp(batch)
+    for spec in probes:
+        ctx.count("long_rules_probes_checked")
+        step_filter(ctx, env, "%s %s" % (M.benign_text(rng, 1, 3), spec[0].upper() if rng.random() < 0.5 else spec[0]), tag="filter-after-many-rules")
+    step_filter(ctx, env, M.benign_text(rng, 2, 4))
+    keepers = {p[0] for p in probes[::2]}
+    for k in [k for k in list(mm.learned) if k not in keepers]:
+        m.forget_threat(k)
+        mm.forget(k)
+        ctx.count("long_session_operations")
+    for spec in probes:
+        ctx.count("long_rules_probes_checked")
+        step_filter(ctx, env, "again %s %s" % (spec[0], M.benign_text(rng, 1, 2)), tag="filter-after-mass-forget")
+    # ---- innate
+    imm = InnateImmunity(severity_threshold=3, silent=True)
+    ienv = IEnv()
+    ienv.imm, ienv.thr, ienv.rng, ienv.ops, ienv.removed = imm, 3, rng, [], []
+    ienv.vpairs = list(zip([("length", 0, 100_000), ("charset", False, False)], imm.validators))
+    ienv.active = [pat_key(p) for p in InnateImmunity.DEFAULT_PATTERNS]
+    ienv.desc = {"gate": "innate", "kind": "long-rules", "rules": size, "severity_threshold": 3, "ops": ienv.ops}
+    cats = list(PAMPCategory)
+    probes = []
+    for i in range(size):
+        spec = ("zqp%dx" % i, False, 3 + (i % 3))
+        imm.add_pattern(TLRPattern(spec[0], cats[i % len(cats)], "added", severity=spec[2]))
+        ienv.active.append(spec)
+        ctx.count("long_session_operations")
+        if i < 4 or i >= size - 4 or i in (size // 3, size // 2, size // 2 + 1):
+            probes.append(spec)
+    for spec in probes:
+        ctx.count("long_rules_probes_checked")
+        step_check(ctx, ienv, "%s %s" % (M.benign_text(rng, 1, 3), spec[0]), tag="check-after-many-rules")
+    step_check(ctx, ienv, M.benign_text(rng, 2, 4))
+    ctx.sample({"kind": "long-rules", "rules_per_gate": size})
+
+
+def case_long_innate(ctx, n, rng):
+    """one innate gate over tens of thousands of checks (hits below / at the threshold, validator rejections, clean inputs,
+    the clock moving by up to weeks), every result judged like any other"""
+    size = long_sizes(ctx, rng, [15_000, 18_000], [50_000, 90_000])
+    env = build_innate(rng)
+    env.desc["kind"] = "long-innate"
+    ctx.count("long_sessions")
+    ctx.count("histories")
+    pool = [make_input(rng, env.active, env.removed)[0] for _ in range(40)] + [M.benign_text(rng, 1, 5) for _ in range(10)]
+    pool = [x for x in pool if len(x) < 2000]
+    with innate_clock(rng, env):
+        for i in range(size):
+            if rng.random() < 0.01:
+                innate_tick(env, rng)
+            x = rng.choice(pool)
+            if i % 3 == 0:
+                x = "%s #%d" % (x, i)
+            del env.ops[:-20]
+            step_check(ctx, env, x)
+            ctx.count("long_session_operations")
+            if i in (size // 3, size // 2):
+                innate_add(env, gen_patspec(rng), rng)
+    ctx.sample({"kind": "long-innate", "config": env.desc, "checks": size})
+
+
+LONG_CASES = {3: case_long_replay, 4: case_long_rate, 5: case_long_rules, 6: case_long_innate, 9: case_long_replay}
+LONG_CASES_THOROUGH = {**LONG_CASES, 10: case_long_rate, 11: case_long_rules, 12: case_long_replay, 13: case_long_innate,
+                       14: case_long_replay, 15: case_long_replay, 16: case_long_rate, 17: case_long_replay}
+GIANT_AT = 12                             # (thorough only) the one session with more than a million blocked inputs
+
+
 # ------------------------------------------------------------------ hostile sweep
 def case_sweep(ctx, gate, kind):
+    if not gate.endswith("-verbose"):
+        return _case_sweep(ctx, gate, kind, True)
+    with contextlib.redirect_stdout(io.StringIO()) as out:
+        _case_sweep(ctx, gate, kind, False)
+    ctx.count("cases_with_console_output_enabled")
+    if out.getvalue():
+        ctx.count("cases_that_printed")
+
+
+def _case_sweep(ctx, gate, kind, silent):
     import random
     x = M.HOSTILE[kind]()
     rng = random.Random(core.stable_hash("C10-sweep", gate, kind))
     ctx.count("hostile_sweep_calls")
     if gate.startswith("membrane"):
         from operon_ai.organelles.membrane import Membrane, ThreatLevel
-        m = Membrane(threshold=ThreatLevel.DANGEROUS, silent=True)
+        m = Membrane(threshold=ThreatLevel.DANGEROUS, silent=silent)
         mm = M.MembraneModel([sig_key(s) for s in Membrane.INNATE_SIGNATURES], 2, True, None)
-        env = MEnv()
-        env.m, env.mm, env.removed, env.inactive, env.ops = m, mm, [], [], []
-        env.desc = {"gate": gate, "hostile_input": kind, "threshold": 2, "ops": env.ops}
-        if gate == "membrane-custom":
+        env = new_menv(m, mm, rng, {"gate": gate, "hostile_input": kind, "threshold": 2})
+        if gate in ("membrane-custom", "membrane-verbose"):
             for rt, spec in [("learn", (r"tok_\d+", True, 3)), ("import", ("secret_token", False, 2)), ("add", (r"key\s*=\s*\w+", True, 1)),
                              ("learn", ("\u00dcBERSCHREIBEN", False, 3))]:
                 apply_rule_op(env, rt, spec)
@@ -895,8 +1642,8 @@ def case_sweep(ctx, gate, kind):
         step_filter(ctx, env, x, tag="filter-hostile-again")
         return
     from operon_ai.surveillance.innate import InnateImmunity, JSONValidator, LengthValidator, CharacterSetValidator
-    if gate == "innate-default":
-        imm = InnateImmunity(silent=True)
+    if gate in ("innate-default", "innate-verbose"):
+        imm = InnateImmunity(silent=silent)
         specs = [("length", 0, 100_000), ("charset", False, False)]
     elif gate == "innate-json":
         imm = InnateImmunity(validators=[JSONValidator()], silent=True)
@@ -914,7 +1661,7 @@ def case_sweep(ctx, gate, kind):
         imm = InnateImmunity(validators=[JSONValidator(), LengthValidator(max_length=10 ** 7), CharacterSetValidator(allow_control_chars=True)], silent=True)
         specs = [("json", 10, 100_000), ("length", 0, 10 ** 7), ("charset", True, False)]
     env = IEnv()
-    env.imm, env.thr = imm, 3
+    env.imm, env.thr, env.rng = imm, 3, rng
     env.vpairs = list(zip(specs, imm.validators))
     env.active = [pat_key(p) for p in InnateImmunity.DEFAULT_PATTERNS]
     env.removed, env.ops = [], []
@@ -984,19 +1731,20 @@ def case_threads(ctx, n, rng):
     import operon_ai.organelles.membrane as mod
     from operon_ai.organelles.membrane import Membrane, ThreatLevel
     from operon_ai.core.types import Signal
-    limit = rng.choice([1, 2, 2, 3, 4])
+    limit = rng.choice([1, 2, 2, 3, 4, 1, 2, 2, 3, 4, 0, 2.0])
+    verbose = rng.random() < 0.2
     nthreads = 3
     ncalls = [rng.randint(1, 4) for _ in range(nthreads)]
     keep = [s for s in Membrane.INNATE_SIGNATURES if s.pattern in ("jailbreak", r"Human:|Assistant:")]
     cls = type("SmallMembrane", (Membrane,), {"INNATE_SIGNATURES": keep})
     contents = [["message %d-%d %s" % (t, i, "jailbreak" if rng.random() < 0.15 else "ok") for i in range(ncalls[t])] for t in range(nthreads)]
-    desc = {"kind": "threads", "rate_limit": limit, "calls": contents}
+    desc = {"kind": "threads", "rate_limit": limit, "silent": not verbose, "calls": contents}
     clock = VClock(1_700_000_000.0)
     ninstr = _instrument(cls(rate_limit=limit, threshold=ThreatLevel.DANGEROUS, silent=True))
     ctx.maxc("instrumented_code_objects", ninstr)
 
     def run(policy, label):
-        m = cls(rate_limit=limit, threshold=ThreatLevel.DANGEROUS, silent=True)
+        m = cls(rate_limit=limit, threshold=ThreatLevel.DANGEROUS, silent=not verbose)
         wrapped = _wrap_locks(m)
         ctx.maxc("thread_locks_wrapped_per_gate", len(wrapped))
 
@@ -1038,7 +1786,7 @@ def case_threads(ctx, n, rng):
         return sc
 
     try:
-        with patched(clock, mod):
+        with patched(clock, mod), contextlib.redirect_stdout(io.StringIO()):
             base = run(sched.PreemptionPolicy({}), "pb(0)")
             N = max(base.step, 1)
             thorough = ctx.tier == "thorough"
@@ -1071,10 +1819,13 @@ def run_case(ctx, n):
     i = n - len(SWEEP)
     if i % (THREAD_EVERY_QUICK if ctx.tier == "quick" else THREAD_EVERY_THOROUGH) == 7:     # both co-prime to the shard counts
         return case_threads(ctx, n, rng)
-    k = i % 25                            # co-prime to both shard counts: every shard sees every kind
+    longs = LONG_CASES if ctx.tier == "quick" else LONG_CASES_THOROUGH
+    if i in longs:
+        return longs[i](ctx, n, rng)
+    k = i % 27                            # co-prime to both shard counts: every shard sees every kind
     fn = (case_minput if k < 8 else case_innate if k < 14 else case_mhist if k < 18 else case_mrelax if k < 20
-          else case_mswap if k < 24 else case_iswap)
-    if i % 37 != 5:
+          else case_mswap if k < 24 else case_iswap if k < 25 else case_multi)
+    if i % 9 != 5:                        # one case in nine runs the gates with console output on
         return fn(ctx, n, rng)
     SILENT[0] = False
     try:
